@@ -66,14 +66,15 @@ Lemma same_own_refl h : same_own h h.
 Proof. repeat split. Qed.
 
 Lemma do_read_points_ok n h s : h_ok s h ->
-  h_ok (snd (do_read_points n h s)) (fst (do_read_points n h s)) /\ same_own h (fst (do_read_points n h s)).
+  let r := do_read_points n h s in h_ok (snd (fst r)) (fst (fst r)) /\ same_own h (fst (fst r)).
 Proof.
   intros (Hc & Hd & Hp). unfold do_read_points.
   destruct (gen_read_points (f_count (h_file h)) (h_read h) n) as [pr k].
   destruct (k <? 0); cbn.
   - split; [repeat split; assumption | repeat split].
   - pose proof (ensure_ps_ok h Hp) as He.
-    destruct (ensure_ps h) as [|b|b] eqn:E; cbn; (split; [repeat split; assumption | repeat split]).
+    destruct (ensure_ps h) as [|b|b] eqn:E; cbn; try destruct (torn _ _); cbn;
+      (split; [repeat split; assumption | repeat split]).
 Qed.
 
 Lemma do_seek_ok pos wh h s : h_ok s h ->
@@ -92,11 +93,12 @@ Lemma do_read_all_ok h s : h_ok s h ->
 Proof.
   intros H. unfold do_read_all.
   pose proof (do_read_points_ok (-1) h s H) as (H1 & S1).
-  destruct (do_read_points (-1) h s) as [h1 s1]. cbn [fst snd] in H1, S1.
+  destruct (do_read_points (-1) h s) as [[h1 s1] r1]. cbn [fst snd] in H1, S1.
   destruct H1 as (Hc & Hd & Hp). destruct S1 as (Sm & Sc & Sd & Sf).
+  destruct r1; try (cbn; split; [repeat split; assumption | repeat split; assumption]).
   destruct (h_pending_evlrs h1).
   - pose proof (ensure_ps_ok h1 Hp) as He.
-    destruct (ps_src_some (ensure_ps h1)); [destruct (s_seekable s1)|]; cbn;
+    destruct (ps_src_some (ensure_ps h1)); [destruct (f_evlr_bad (h_file h)); [|destruct (s_seekable s1)]|]; cbn;
       (split; [repeat split; assumption | repeat split; assumption]).
   - cbn. split; [repeat split; assumption | repeat split; assumption].
 Qed.
@@ -129,7 +131,7 @@ Proof.
       { intros x. split; [|exact I]. unfold add_obs. apply obs_ok_app; [exact Hl|]. intros _ _. cbn.
         rewrite (handle_exn_closed m cf x _ Ec). symmetry. exact Hdecl. }
       destruct (is_a m && negb (s_seekable (st_s t))); [apply Hfail|].
-      destruct (fail_exn m o) as [x|]; [apply Hfail|].
+      destruct (open_exn m o f re (s_seekable (st_s t))) as [x|]; [apply Hfail|].
       cbn. split; [exact Hl|]. split; [|split].
       * destruct (is_r m); [cbn; exact Ec | exact Ec].
       * cbn. rewrite gen_cf_id. symmetry. exact Hdecl.
@@ -174,7 +176,7 @@ Proof.
   rewrite gen_read_las_cf_id in *. specialize (Hopen eq_refl Hi).
   unfold do_open in *. rewrite Eh in *. rewrite gen_pre_assert_r in *. cbn [andb] in *.
   rewrite Ec in *. cbn [is_a andb] in *.
-  destruct (fail_exn MR o) as [x|].
+  destruct (open_exn MR o f true (s_seekable (st_s t))) as [x|].
   - cbn [fst st_h st_s] in *. split; [exact Hopen | split; [reflexivity | apply handle_exn_closed; exact Ec]].
   - cbn [fst st_h st_s is_r] in *.
     set (h0 := mkH MR _ _ _ _ _ _) in *. set (s0 := set_pos _ _) in *.
@@ -191,11 +193,11 @@ Qed.
 Lemma step_inv t e : inv t -> inv (fst (step t e)).
 Proof.
   intros Hi. pose proof Hi as (Hl & Hh).
-  destruct e as [m cf re f o|n|pos wh| | | |x| | |o|cf f o|]; cbn [step].
+  destruct e as [m cf re f o|n|pos wh| | | |x| | |o|cf f o|p]; cbn [step].
   - apply do_open_inv; [reflexivity | exact Hi].
   - unfold on_reader. destruct (st_h t) as [h|] eqn:Eh; [|exact Hi]. destruct (is_r (h_mode h)); [|exact Hi].
     pose proof (do_read_points_ok n h (st_s t) Hh) as (Hok & _).
-    destruct (do_read_points n h (st_s t)) as [h' s']. cbn [fst]. apply upd_inv; assumption.
+    destruct (do_read_points n h (st_s t)) as [[h' s'] r]. cbn [fst]. apply upd_inv; assumption.
   - unfold on_reader. destruct (st_h t) as [h|] eqn:Eh; [|exact Hi]. destruct (is_r (h_mode h)); [|exact Hi].
     pose proof (do_seek_ok pos wh h (st_s t) Hh) as (Hok & _).
     destruct (do_seek pos wh h (st_s t)) as [[h' s'] r]. cbn [fst]. apply upd_inv; assumption.
@@ -233,12 +235,14 @@ Proof.
   cbn [run fold_left]. apply IH. apply step_inv. exact Hi.
 Qed.
 
-Lemma init_inv sk : inv (init sk).
+Lemma init_at_inv sk p : inv (init_at sk p).
 Proof. split; [constructor | exact I]. Qed.
+Lemma init_inv sk : inv (init sk).
+Proof. apply init_at_inv. Qed.
 
 (* ---------------- the theorems ---------------- *)
-Theorem ownership_iff sk evs : Forall obs_ok (st_log (run (init sk) evs)).
-Proof. exact (proj1 (run_inv evs (init sk) (init_inv sk))). Qed.
+Theorem ownership_iff sk p evs : Forall obs_ok (st_log (run (init_at sk p) evs)).
+Proof. exact (proj1 (run_inv evs (init_at sk p) (init_at_inv sk p))). Qed.
 
 (* every observation that is not the w-mode seekability assertion satisfies the boolean reading as well *)
 Lemma obs_ok_b o : obs_ok o -> obs_okb o = true.
@@ -247,10 +251,10 @@ Proof.
     (destruct (o_was_open o); [cbn; rewrite H; [apply eqb_reflx | discriminate | reflexivity] | reflexivity]).
 Qed.
 
-Theorem ownership_iff_b sk evs : forallb obs_okb (st_log (run (init sk) evs)) = true.
+Theorem ownership_iff_b sk p evs : forallb obs_okb (st_log (run (init_at sk p) evs)) = true.
 Proof.
   apply forallb_forall. intros o Hin. apply obs_ok_b.
-  pose proof (ownership_iff sk evs) as H. rewrite Forall_forall in H. exact (H o Hin).
+  pose proof (ownership_iff sk p evs) as H. rewrite Forall_forall in H. exact (H o Hin).
 Qed.
 
 Theorem failed_open t m cf re f o x : st_h t = None -> s_closed (st_s t) = false ->
@@ -264,7 +268,7 @@ Proof.
   rewrite Hp.
   destruct (is_a m && negb (s_seekable (st_s t))).
   - cbn. intros _. split; [reflexivity | apply handle_exn_closed; exact Ec].
-  - destruct (fail_exn m o) as [y|]; cbn; intros H; [|discriminate].
+  - destruct (open_exn m o f re (s_seekable (st_s t))) as [y|]; cbn; intros H; [|discriminate].
     split; [reflexivity | apply handle_exn_closed; exact Ec].
 Qed.
 
@@ -272,7 +276,7 @@ Qed.
 Theorem open_outcome t m cf re f o : st_h t = None -> s_closed (st_s t) = false ->
   (gen_open_pre_assert_seekable m = true -> s_seekable (st_s t) = true) ->
   (is_a m = true -> s_seekable (st_s t) = true) ->
-  match fail_exn m o with
+  match open_exn m o f re (s_seekable (st_s t)) with
   | Some x => snd (step t (EOpen m cf re f o)) = RRaised x
   | None => snd (step t (EOpen m cf re f o)) = RDone /\
             exists h, st_h (fst (step t (EOpen m cf re f o))) = Some h /\ h_mode h = m /\ h_closefd h = cf /\ h_ps h = PNone /\
@@ -284,17 +288,17 @@ Proof.
   { destruct (gen_open_pre_assert_seekable m); [rewrite Hpre by reflexivity; reflexivity | reflexivity]. }
   assert (Hq : is_a m && negb (s_seekable (st_s t)) = false).
   { destruct (is_a m); [rewrite Ha by reflexivity; reflexivity | reflexivity]. }
-  rewrite Hp, Hq. destruct (fail_exn m o) as [x|]; cbn [fst snd]; [reflexivity|].
+  rewrite Hp, Hq. destruct (open_exn m o f re (s_seekable (st_s t))) as [x|]; cbn [fst snd]; [reflexivity|].
   split; [reflexivity|]. eexists. split; [reflexivity|]. cbn [h_mode h_closefd h_ps st_s].
   rewrite gen_cf_id. repeat split. destruct (is_r m); [cbn; exact Ec | exact Ec].
 Qed.
 
-Theorem handle_gone sk evs e h : is_end e = true -> st_h (run (init sk) evs) = Some h ->
-  st_h (fst (step (run (init sk) evs) e)) = None /\
-  s_closed (st_s (fst (step (run (init sk) evs) e))) = h_declared h /\ h_closefd h = h_declared h.
+Theorem handle_gone sk p evs e h : is_end e = true -> st_h (run (init_at sk p) evs) = Some h ->
+  st_h (fst (step (run (init_at sk p) evs) e)) = None /\
+  s_closed (st_s (fst (step (run (init_at sk p) evs) e))) = h_declared h /\ h_closefd h = h_declared h.
 Proof.
-  intros He Eh. pose proof (run_inv evs (init sk) (init_inv sk)) as Hi.
-  set (t := run (init sk) evs) in *.
+  intros He Eh. pose proof (run_inv evs (init_at sk p) (init_at_inv sk p)) as Hi.
+  set (t := run (init_at sk p) evs) in *.
   assert (Hd : h_closefd h = h_declared h) by (destruct Hi as (_ & Hh); rewrite Eh in Hh; exact (proj1 (proj2 Hh))).
   destruct e; try discriminate He; cbn [step]; unfold on_handle; rewrite Eh; cbn [fst].
   - pose proof (end_handle_facts HBodyRaised true t h ltac:(discriminate) Hi Eh) as (_ & A & B). repeat split; assumption.
@@ -307,12 +311,12 @@ Theorem write_keeps_open t o :
   s_closed (st_s (fst (step t (ELasDataWrite o)))) = s_closed (st_s t) /\ st_h (fst (step t (ELasDataWrite o))) = st_h t.
 Proof. cbn [step]. apply lasdata_write_stream. Qed.
 
-Theorem read_las_closes sk evs cf f o :
-  st_h (run (init sk) evs) = None -> s_closed (st_s (run (init sk) evs)) = false ->
-  st_h (fst (step (run (init sk) evs) (EReadLas cf f o))) = None /\
-  s_closed (st_s (fst (step (run (init sk) evs) (EReadLas cf f o)))) = cf.
+Theorem read_las_closes sk p evs cf f o :
+  st_h (run (init_at sk p) evs) = None -> s_closed (st_s (run (init_at sk p) evs)) = false ->
+  st_h (fst (step (run (init_at sk p) evs) (EReadLas cf f o))) = None /\
+  s_closed (st_s (fst (step (run (init_at sk p) evs) (EReadLas cf f o)))) = cf.
 Proof.
-  intros Eh Ec. pose proof (run_inv evs (init sk) (init_inv sk)) as Hi.
+  intros Eh Ec. pose proof (run_inv evs (init_at sk p) (init_at_inv sk p)) as Hi.
   pose proof (read_las_facts cf f o _ Hi Eh Ec) as (_ & A & B). split; assumption.
 Qed.
 
@@ -332,32 +336,111 @@ Qed.
 Lemma evlrs_restore f p : run_sops f gen_read_evlrs_ops p = p.
 Proof. reflexivity. Qed.
 
-Theorem open_position t cf re f : st_h t = None -> s_closed (st_s t) = false ->
+Theorem open_position t cf re f o : st_h t = None -> s_closed (st_s t) = false ->
   227 <= f_offset f -> s_pos (st_s t) + f_offset f <= f_size f ->
-  s_pos (st_s (fst (step t (EOpen MR cf re f OOk)))) = s_pos (st_s t) + f_offset f.
+  snd (step t (EOpen MR cf re f o)) = RDone ->
+  s_pos (st_s (fst (step t (EOpen MR cf re f o)))) = s_pos (st_s t) + f_offset f.
 Proof.
-  intros Eh Ec Ho Hs. cbn [step]. unfold do_open. rewrite Eh, Ec, gen_pre_assert_r. cbn [andb orb is_a fail_exn fst is_r st_s].
+  intros Eh Ec Ho Hs. cbn [step]. unfold do_open. rewrite Eh, Ec, gen_pre_assert_r. cbn [andb orb is_a].
+  destruct (open_exn MR o f re (s_seekable (st_s t))) as [x|]; cbn [fst snd is_r st_s]; [discriminate|]. intros _.
   unfold set_pos. cbn [s_pos]. unfold header_read_pos. rewrite prefetch_pos by assumption.
   destruct (gen_read_from_prefetch_then_evlrs && re && evlr_guard f (s_seekable (st_s t))); [apply evlrs_restore | reflexivity].
 Qed.
 
+(* a well-formed file whose EVLRs decode opens: the hypothesis above is not vacuous *)
+Theorem open_ok_succeeds t cf re f : st_h t = None -> s_closed (st_s t) = false -> f_evlr_bad f = false ->
+  snd (step t (EOpen MR cf re f OOk)) = RDone.
+Proof.
+  intros Eh Ec Hb. cbn [step]. unfold do_open. rewrite Eh, Ec, gen_pre_assert_r. cbn [andb orb is_a].
+  unfold open_exn. cbn [fail_exn]. rewrite Hb, andb_false_r. reflexivity.
+Qed.
+
 (* the first read after opening takes its records from where opening left the stream: no seek is needed *)
-Theorem points_follow t h n : st_h t = Some h -> h_mode h = MR -> h_ps h = PNone -> h_read h = 0 ->
+Theorem points_follow t h n base : st_h t = Some h -> h_mode h = MR -> h_ps h = PNone -> h_read h = 0 ->
   let f := h_file h in
-  s_pos (st_s t) = f_offset f -> 0 < f_count f -> 0 <= f_psize f -> f_offset f + f_count f * f_psize f <= f_size f ->
+  s_pos (st_s t) = base + f_offset f -> 0 < f_count f -> 0 <= f_psize f -> base + f_offset f + f_count f * f_psize f <= f_size f ->
   let k := if n <? 0 then f_count f else Z.min n (f_count f) in
-  s_pos (st_s (fst (step t (EReadPoints n)))) = f_offset f + k * f_psize f.
+  snd (step t (EReadPoints n)) = RDone /\
+  s_pos (st_s (fst (step t (EReadPoints n)))) = base + f_offset f + k * f_psize f.
 Proof.
   intros Eh Em Ep Er f Hpos Hc Hps Hsz k. cbn [step]. unfold on_reader. rewrite Eh, Em. cbn [is_r].
   unfold do_read_points. fold f. rewrite Er. unfold gen_read_points.
   replace (f_count f - 0 <=? 0) with false by lia.
   unfold ensure_ps. rewrite Ep. rewrite new_ps_real by exact Hc.
+  assert (Hnt : forall j, 0 <= j <= f_count f ->
+            rd (f_size f) (s_pos (st_s t)) (j * f_psize f) = s_pos (st_s t) + j * f_psize f
+            /\ torn (f_psize f) (rd (f_size f) (s_pos (st_s t)) (j * f_psize f) - s_pos (st_s t)) = false).
+  { intros j Hj. rewrite rd_within by nia. split; [reflexivity|].
+    unfold torn. replace (s_pos (st_s t) + j * f_psize f - s_pos (st_s t)) with (j * f_psize f) by lia.
+    destruct (0 <? f_psize f) eqn:E; [|reflexivity]. rewrite Z.mod_mul by lia. reflexivity. }
   subst k. destruct (n <? 0) eqn:En.
-  - replace (f_count f - 0 <? 0) with false by lia. cbn [fst upd st_s set_pos s_pos].
-    rewrite rd_within by nia. rewrite Hpos. replace (f_count f - 0) with (f_count f) by lia. reflexivity.
-  - replace (Z.min n (f_count f - 0) <? 0) with false by lia. cbn [fst upd st_s set_pos s_pos].
-    replace (f_count f - 0) with (f_count f) by lia.
-    rewrite rd_within by nia. rewrite Hpos. reflexivity.
+  - replace (f_count f - 0 <? 0) with false by lia.
+    destruct (Hnt (f_count f - 0) ltac:(lia)) as [R T]. rewrite T, R. cbn [fst snd upd st_s set_pos s_pos].
+    rewrite Hpos. replace (f_count f - 0) with (f_count f) by lia. split; reflexivity.
+  - replace (Z.min n (f_count f - 0) <? 0) with false by lia.
+    destruct (Hnt (Z.min n (f_count f - 0)) ltac:(lia)) as [R T]. rewrite T, R. cbn [fst snd upd st_s set_pos s_pos].
+    replace (f_count f - 0) with (f_count f) by lia. rewrite Hpos. split; reflexivity.
+Qed.
+
+(* a point area that ends inside a record: the read that reaches the end raises, and what follows (the with-exit, a
+   close, laspy.read's own exit) still closes iff closefd - that part is ownership_iff / read_las_closes *)
+Lemma torn_read_points h s base : h_ps h = PNone -> h_read h = 0 ->
+  let f := h_file h in
+  s_pos s = base + f_offset f -> 0 < f_count f -> 0 < f_psize f ->
+  base + f_offset f <= f_size f < base + f_offset f + f_count f * f_psize f ->
+  (f_size f - (base + f_offset f)) mod f_psize f <> 0 ->
+  do_read_points (-1) h s = (set_ps h (PReal true), set_pos s (f_size f), RRaised XOther).
+Proof.
+  intros Ep Er f Hpos Hc Hps Hsz Hmod.
+  unfold do_read_points. fold f. rewrite Er. unfold gen_read_points.
+  replace (f_count f - 0 <=? 0) with false by lia. change (-1 <? 0) with true. cbv iota.
+  replace (f_count f - 0 <? 0) with false by lia.
+  unfold ensure_ps. rewrite Ep. fold f. rewrite new_ps_real by exact Hc.
+  assert (rd (f_size f) (s_pos s) ((f_count f - 0) * f_psize f) = f_size f) as R.
+  { unfold rd. assert (0 <= (f_count f - 0) * f_psize f) by nia.
+    assert (f_size f < s_pos s + (f_count f - 0) * f_psize f) by nia.
+    destruct ((f_count f - 0) * f_psize f <? 0) eqn:E; lia. }
+  rewrite R. unfold torn. replace (0 <? f_psize f) with true by lia. rewrite Hpos.
+  replace ((f_size f - (base + f_offset f)) mod f_psize f =? 0) with false; [reflexivity|].
+  symmetry. apply Z.eqb_neq. exact Hmod.
+Qed.
+
+(* a point area that ends inside a record: the read that reaches the end raises, and what follows (the with-exit, a
+   close, laspy.read's own exit) still closes iff closefd - that part is ownership_iff / read_las_closes *)
+Theorem torn_points_raise t h base : st_h t = Some h -> h_mode h = MR -> h_ps h = PNone -> h_read h = 0 ->
+  let f := h_file h in
+  s_pos (st_s t) = base + f_offset f -> 0 < f_count f -> 0 < f_psize f ->
+  base + f_offset f <= f_size f < base + f_offset f + f_count f * f_psize f ->
+  (f_size f - (base + f_offset f)) mod f_psize f <> 0 ->
+  snd (step t EReadAll) = RRaised XOther /\ snd (step t (EReadPoints (-1))) = RRaised XOther
+  /\ s_closed (st_s (fst (step t EReadAll))) = s_closed (st_s t).
+Proof.
+  intros Eh Em Ep Er f Hpos Hc Hps Hsz Hmod. cbn [step]. unfold on_reader. rewrite Eh, Em. cbn [is_r].
+  unfold do_read_all. rewrite (torn_read_points h (st_s t) base Ep Er Hpos Hc Hps Hsz Hmod).
+  cbn. repeat split.
+Qed.
+
+(* EVLRs that cannot be decoded: the failure comes where they are loaded - at opening when that was asked for and the
+   stream can seek to them (then the stream is closed iff closefd, as for any failed open), in read() otherwise *)
+Theorem bad_evlrs_fail_where_loaded t cf re f : st_h t = None -> s_closed (st_s t) = false ->
+  f_evlr_bad f = true -> 4 <= f_minor f -> 0 < f_nevlrs f ->
+  let r := step t (EOpen MR cf re f OOk) in
+  if re && s_seekable (st_s t)
+  then snd r = RRaised XOther /\ st_h (fst r) = None /\ s_closed (st_s (fst r)) = cf
+  else snd r = RDone /\ exists h, st_h (fst r) = Some h /\ h_pending_evlrs h = true /\
+       forall s, snd (do_read_all (set_ps (set_read h (f_count f)) (PReal true)) s) = RRaised XOther.
+Proof.
+  intros Eh Ec Hb H4 Hn. cbn [step]. unfold do_open. rewrite Eh, Ec, gen_pre_assert_r. cbn [andb orb is_a].
+  unfold open_exn. cbn [fail_exn is_r andb]. unfold evlr_guard, pending_evlrs. rewrite Hb.
+  replace (4 <=? f_minor f) with true by lia. replace (0 <? f_nevlrs f) with true by lia.
+  change gen_read_from_prefetch_then_evlrs with true. cbn [andb]. rewrite !andb_true_r.
+  destruct (re && s_seekable (st_s t)) eqn:E.
+  - cbn [fst snd st_h st_s]. split; [reflexivity|]. split; [reflexivity|]. apply handle_exn_closed. exact Ec.
+  - cbn [fst snd st_h]. split; [reflexivity|]. eexists. split; [reflexivity|]. cbn [h_pending_evlrs].
+    split; [destruct re, (s_seekable (st_s t)); cbn in *; congruence|].
+    intros s. unfold do_read_all, do_read_points. cbn [h_file set_ps set_read h_read]. unfold gen_read_points.
+    replace (f_count f - f_count f <=? 0) with true by lia. cbn.
+    destruct re, (s_seekable (st_s t)); cbn in *; try congruence; rewrite Hb; reflexivity.
 Qed.
 
 (* what the one excluded exit does: the w-mode seekability assertion leaves the stream as it was *)
